@@ -71,7 +71,7 @@ Proof.
     apply Forall_cons. { cbn [snd wf_stmt]. split; [reflexivity|]. split; [reflexivity | exact I]. }
     apply Forall_cons. { cbn [snd wf_stmt]. apply Forall_nil. }
     apply Forall_cons. { exact I. }
-    apply Forall_cons. { cbn [snd wf_stmt]. exists 0%nat. eexists. split; [reflexivity|]. split; [lia|]. split; [reflexivity|]. right. reflexivity. }
+    apply Forall_cons. { cbn [snd wf_stmt]. left. exists 0%nat. eexists. split; [reflexivity|]. split; [lia|]. split; [reflexivity|]. right. reflexivity. }
     apply Forall_cons. { cbn [snd wf_stmt]. apply Forall_nil. }
     apply Forall_cons. { cbn [snd wf_stmt]. apply Forall_cons; [split; reflexivity|]. apply Forall_nil. }
     apply Forall_cons. { cbn [snd wf_stmt]. lia. }
